@@ -264,7 +264,7 @@ func copyRewritten(srcDir, dstDir string, counts map[string]int) error {
 
 // BuildRunner instruments $repo/diode and $repo/diode/internal/diodes and builds the runner.
 func BuildRunner(repo string) (*Built, error) {
-	dir, err := os.MkdirTemp("", "verif-diode-")
+	dir, err := os.MkdirTemp(os.Getenv("VERIF_WORK"), "verif-diode-") // under the check's work directory (.work/<ID>) when run by bin/check
 	if err != nil {
 		return nil, err
 	}
